@@ -112,6 +112,24 @@ def shard(P, ver, idx, n, seed):
             check_pair(P, ver, rep, s, kind)
         if j % 97 == 0:
             P.sample({"ver": ver, "rep": rep, "spelling": s, "kind": kind})
+        if j % 4 == 0:
+            # strings outside the grammar (letter case, padding, separators ...) that the constructor ACCEPTS all the same are
+            # accepted vectors: the same fields in another order must then be accepted too, with the same outputs
+            from . import C18
+            for op, ms in V.field_mutants(ver, prefix, T.parse(ver, V.spell(prefix, m, "shuffle", rng))[1], rng):
+                if op not in C18.NEAR_OPS:
+                    continue
+                ok, _o = obs.call(lib().CLS[ver], ms)
+                if not ok:
+                    P.stratum("near-miss-rejected")
+                    continue
+                parts = ms.split("/")
+                head, fs = ([], parts) if ver == "2" else (parts[:1], parts[1:])
+                for _ in range(2):
+                    fs2 = list(fs)
+                    rng.shuffle(fs2)
+                    P.stratum("accepted-near-miss-permuted")
+                    check_pair(P, ver, ms, "/".join(head + fs2), "near-miss-accepted:order")
 
 
 def shard_base_exhaustive(P, ver, part, nparts, shapes, seed):
